@@ -23,6 +23,22 @@ claimed = {
          "message and ack buffers are fresh allocations whose bytes no queue operation modifies. For all queue sizes, wrap positions and any number of entries (loop invariants, no bound). "
          "What the buffers contain (wire(msg), n == Len()) is the per-type result of C03; at the Message interface it is assumed."),
    design='DESIGN.md §4 C13', technique='contracts + representation invariant + loop invariants, VCs over go/ssa discharged by z3/cvc5 (govc)'),
+ 'C14': dict(level='proof',
+   text=("Contract-based deductive proof under rely/guarantee (single producer, single consumer): every ring-buffer function (cursor get/set, waitForWriteSpace, WriteWait, WriteCommit, Write, ringCopy, ReadPeek, ReadWait, ReadCommit, Read, ReadFrom, WriteTo, Close, Len) is verified sequentially plus interference at every yield point (atomic cursor read, isDone, Lock, Cond.Wait, socket Read/Write), where the other side may have changed exactly what the function's rely clause allows. "
+         "Producer side: space is granted only up to gate+size (gate <= consumer cursor), writes touch only the granted region, the cursor advances by exactly what was written, every block handed to the socket reader is the reserved region. "
+         "Consumer side, against a ghost stream of all committed bytes: peeked/read/drained bytes are the stream at the consumer cursor in order on both the in-place and the wrap path, the cursor advances by what was consumed and never passes the producer. Unbounded in sizes, positions and iterations. "
+         "Assumed (trusted): sequentially consistent atomics, one producer and one consumer at a time, soundness of the rely/guarantee composition (producer guarantee implies consumer rely and vice versa), cursors below 2^61, 64-bit index lemmas proved separately in QF_BV."),
+   design='DESIGN.md §4 C14', technique='contracts with rely/guarantee interference + ghost stream, VCs over go/ssa discharged by z3/cvc5 (govc)'),
+ 'C15': dict(level='proof',
+   text=("Contract-based proof of the monitor-discipline premises from which lost-wake-up freedom follows, on every path of every buffer function: (P1) at each Cond.Wait the waited lock is held and the waiter's latest read of its predicate (peer cursor) happened after its latest acquisition of that lock (ghost clock); "
+         "(P2) every cursor store and Close is followed by a Broadcast of the right condition under that condition's own lock (ghost wake-up counters; Broadcast requires its lock held); (P3) every function returns holding exactly the locks it entered with (lock balance on all paths, including early returns on a closed buffer); "
+         "(P4) no wait for space that can never come (a request larger than the ring fails instead of blocking). The implication P1-P4 => 'no call blocks forever once its condition holds or Close was called' is the classical monitor argument and is NOT machine-checked (core claim only)."),
+   design='DESIGN.md §4 C15', technique='ghost-state contracts (held-lock set, ghost clock, wake-up counters) over go/ssa, z3/cvc5 (govc)'),
+ 'C17': dict(level='proof',
+   text=("Contract-based proof for writeMessage (core of the property): all ring operations of a packet write happen while the connection's write mutex is held, and the mutex is held continuously from before the reservation to the commit (ghost clock: no re-acquisition in between); "
+         "what is committed is exactly what the message's Encode produced, at exactly the reserved region (in-place path) or exactly the scratch bytes (wrap path), so the ring receives whole encoded packets; on an error before the commit nothing is committed. "
+         "That Encode produces a complete well-formed packet of Len() bytes is C03 per type (assumed at the Message interface). Not covered: per-publisher ordering across goroutines (a schedule property)."),
+   design='DESIGN.md §4 C17', technique='contracts with call-site obligations (atcall) and ghost ordering, VCs over go/ssa, z3/cvc5 (govc)'),
  'C04': dict(level='proof',
    text=("Contract-based deductive proof: every index, slice (also against len, not only cap: 'strictslice'), nil, conversion and overflow obligation in every Decode path is generated with no annotation and discharged; "
          "contracts add 0<=n<=len(src), every returned field lies within src[:n], loop variants (termination), and acceptance of every well-formed packet (for SUBSCRIBE/UNSUBSCRIBE against a caller-chosen ghost entry chain). Unbounded in input length and topic count."),
